@@ -179,6 +179,7 @@ func c13Scenario(idx int, steps []c13Step, o, ot *peer) (map[string]any, []map[s
 	conns := map[string]*c13Client{}
 	expectCodes := map[string]float64{}
 	nreq := 0.0
+	dialed := 0.0 // connections the harness opened: the listener must come to count every one of them
 	get := func(name string) *c13Client {
 		if c, ok := conns[name]; ok {
 			return c
@@ -189,6 +190,7 @@ func c13Scenario(idx int, steps []c13Step, o, ot *peer) (map[string]any, []map[s
 		}
 		c := &c13Client{raw: rc}
 		conns[name] = c
+		dialed++
 		return c
 	}
 	drop := func(name string) {
@@ -318,7 +320,8 @@ func c13Scenario(idx int, steps []c13Step, o, ot *peer) (map[string]any, []map[s
 	deadline := time.Now().Add(4 * time.Second)
 	for {
 		snap = gather(f.reg)
-		if (snap.inflight == 0 && snap.total == nreq && snap.active == 0) || time.Now().After(deadline) {
+		// quiescent: also every connection opened (even one closed at once) has been through Accept
+		if (snap.inflight == 0 && snap.total == nreq && snap.active == 0 && snap.accepted >= dialed) || time.Now().After(deadline) {
 			break
 		}
 		time.Sleep(10 * time.Millisecond)
